@@ -72,6 +72,8 @@ pub fn run(ctx: &mut Ctx) {
         }
         // inputs that end in blank, whitespace-only or comment-only lines, and metadata-only documents (the two entry points
         // `parse` and `parse_metadata` are interleaved on one parser below)
+        // a document whose metadata names a locale, next to documents with numbers a locale could read differently
+        for s in ["---\nlocale: es_ES\n---\nMezclar @harina{1%kg}.\n", "Mix @flour{1,5%kg} and @salt{2,25} for ~{1,5%min}.\n", "---\nlocale: de_DE\n---\n@Mehl{1,5%kg}\n", ">> locale: fr_FR\n\n@farine{2,5%kg} à 180 °C, 1.000 g\n", "@a{1.5%kg} @b{1,000%g} 2,5 kg\n"] { inputs.push(s.to_string()); }
         for s in ["Boil the @eggs{2}.\n\n\n", "\n", "  \n\t\n", "Mix.\n-- c\n[- d -]\n\n", "\n>> title: Soup\n>> servings: 4\n", ">> title: Bread\n>> time: 1h\n\nKnead.\n", "---\ntitle: x\n---\n\n\n", "a\n\n\n\n>> k: v\n"] { inputs.push(s.to_string()); }
         // (a) fresh parser per input (+ model)
         let fresh: Vec<String> = inputs.iter().map(|s| image(&mk(), s)).collect();
@@ -183,9 +185,15 @@ pub fn run(ctx: &mut Ctx) {
                 }
                 Converter::builder().with_units_file(file).ok()?.finish().ok()
             };
-            let kinds: Vec<Box<dyn Fn() -> Option<Converter>>> = vec![Box::new(|| Some(Converter::bundled())), Box::new(rebased_time), Box::new(renamed), Box::new(|| Some(Converter::empty())),
+            // two units whose keys differ only in letter case (`st` stone, `St` stick): a lookup that ignores case has to choose
+            let case_twins = || {
+                let text = "[[quantity]]\nquantity = \"mass\"\n[quantity.units]\nimperial = [{ names = [\"stone\"], symbols = [\"st\"], ratio = 6350.29318 }]\n\n[[quantity]]\nquantity = \"volume\"\n[quantity.units]\nimperial = [{ names = [\"stick\"], symbols = [\"St\"], ratio = 0.1183 }]\n";
+                let layer: UnitsFile = toml::from_str(text).ok()?;
+                Converter::builder().with_bundled_units().ok()?.with_units_file(layer).ok()?.finish().ok()
+            };
+            let kinds: Vec<Box<dyn Fn() -> Option<Converter>>> = vec![Box::new(|| Some(Converter::bundled())), Box::new(rebased_time), Box::new(renamed), Box::new(|| Some(Converter::empty())), Box::new(case_twins),
                 Box::new(|| crate::props::c09::alt_world().map(|w| w.conv))];
-            let probes = ["---\nprep time: 20 min\n---\nx\n", "---\nprep time: 20 minutos\ncook time: 1 h\n---\nx\n", ">> time: 1 hour 30 min\n\nWait ~{5%min} and ~{2%mn}.\n", "---\ntime: 90 min\n---\n@a{1%kg} ~{1%h}\n", ">> cook time: 2 horas\n"];
+            let probes = ["---\nprep time: 20 min\n---\nx\n", "---\nprep time: 20 minutos\ncook time: 1 h\n---\nx\n", ">> time: 1 hour 30 min\n\nWait ~{5%min} and ~{2%mn}.\n", "---\ntime: 90 min\n---\n@a{1%kg} ~{1%h}\n", ">> cook time: 2 horas\n", "Melt the @butter{1%ST}.\n\nAdd more @&butter{100%g} if needed and ~{2%ST}.\n", "@x{1%st} @&x{1%St} @y{1%KG} @&y{1%kg} ~{1%MIN}\n"];
             // reference: one parser per converter, all alive at the same time (so each at its own place)
             let ref_parsers: Vec<Option<Box<CooklangParser>>> = kinds.iter().map(|k| k().map(|c| Box::new(CooklangParser::new(ext, c)))).collect();
             // (the image here also carries what the time / servings accessors of the returned metadata say under the parser's converter)
